@@ -17,6 +17,15 @@ INVOKED_PROCEDURE_NAMES = re.compile(r'(?i)\s*RUN\s+(\w+)(?=[^"]*(?:"[^"]*"[^"]*
 # Finds STRING<<>> occurences so that they can be replaced with storage sizes
 STR_STORAGE_TAG = re.compile(r'(?i)\:\s*STRING\<\<\>\>(?=[^"]*(?:"[^"]*"[^"]*)*$)')
 
+# Start of a comment, (* or REM, that is not inside a string literal.
+COMMENT_START = re.compile(r'(?i)(?:\(\*|\bREM\b)(?=[^"]*(?:"[^"]*"[^"]*)*$)')
+
+
+def split_comment(line: str):
+    """Returns the code part of a line and its trailing comment (possibly empty)."""
+    match = COMMENT_START.search(line)
+    return (line[: match.start()], line[match.start() :]) if match else (line, "")
+
 
 class ProcedureBank(object):
     """
@@ -60,7 +69,7 @@ class ProcedureBank(object):
                 name = match[1]
                 name_to_procedure_array[name] = current_procedure
             current_procedure.append(line)
-            invoked_names = INVOKED_PROCEDURE_NAMES.findall(line)
+            invoked_names = INVOKED_PROCEDURE_NAMES.findall(split_comment(line)[0])
             self._name_to_dependencies[name].update(invoked_names)
 
         for name, procedure in name_to_procedure_array.items():
@@ -86,7 +95,10 @@ class ProcedureBank(object):
             if self._default_str_storage == b09.DEFAULT_STR_STORAGE
             else f"[{self._default_str_storage}]"
         )
-        return re.sub(STR_STORAGE_TAG, str_storage_text, raw_text)
+        return "\n".join(
+            re.sub(STR_STORAGE_TAG, str_storage_text, code) + comment
+            for code, comment in map(split_comment, raw_text.split("\n"))
+        )
 
     def _get_procedure_and_dependency_names(self, procedure_name):
         """
